@@ -203,16 +203,28 @@ func (s *Solver) discharge(p *prepared, idx int) {
 	}
 }
 
-func (s *Solver) run(obls []*Obligation) {
-	// 1. group instances of the same obligation and try them as one query: OR_i (pc_i and not goal_i) unsat
-	type group struct {
-		members []*Obligation
-		text    string
+func (s *Solver) groupText(name string, members []*Obligation) string {
+	var alts []*Term
+	for _, o := range members {
+		alts = append(alts, And(append(append([]*Term{}, o.PC...), Not(o.Goal))...))
 	}
+	q := &Query{Name: name, Axioms: s.axioms, Asserts: []*Term{Or(alts...)}}
+	return fmt.Sprintf("; obligation %s: %d path instances as one query\n", name, len(members)) + q.SMT(false)
+}
+
+// run decides all instances. Instances of one obligation are tried as one query
+// (OR_i (pc_i and not goal_i) unsat); a group that is not refuted is split in halves, down to
+// single instances (which are tried conjunct by conjunct with the full timeout). After the first
+// failed single instance the rest of that obligation is not run.
+func (s *Solver) run(obls []*Obligation) {
 	byName := map[string][]*Obligation{}
 	var names []string
 	for _, o := range obls {
-		if o.Result != "" || o.Unsupp != "" || o.Goal == nil {
+		if o.Result != "" {
+			continue
+		}
+		if o.Unsupp != "" || o.Goal == nil {
+			o.Result = "unsupported"
 			continue
 		}
 		if _, ok := byName[o.Name]; !ok {
@@ -220,113 +232,74 @@ func (s *Solver) run(obls []*Obligation) {
 		}
 		byName[o.Name] = append(byName[o.Name], o)
 	}
-	var groups []*group
-	for _, n := range names {
-		ms := byName[n]
-		if len(ms) < 2 {
-			continue
-		}
-		for i := 0; i < len(ms); i += 48 {
-			j := i + 48
-			if j > len(ms) {
-				j = len(ms)
-			}
-			g := &group{members: ms[i:j]}
-			var alts []*Term
-			for _, o := range g.members {
-				alts = append(alts, And(append(append([]*Term{}, o.PC...), Not(o.Goal))...))
-			}
-			q := &Query{Name: n, Axioms: s.axioms, Asserts: []*Term{Or(alts...)}}
-			g.text = fmt.Sprintf("; obligation %s: %d path instances as one query\n", n, len(g.members)) + q.SMT(false)
-			groups = append(groups, g)
-		}
-	}
-	dbg := os.Getenv("GOVC_DEBUG") != ""
-	t0 := time.Now()
-	if dbg {
-		fmt.Fprintf(os.Stderr, "[govc] rendered %d grouped queries in %.1fs\n", len(groups), time.Since(t0).Seconds())
-	}
 	var wg sync.WaitGroup
 	sem := make(chan struct{}, 16)
-	for gi, g := range groups {
+	var ctr int64
+	for _, n := range names {
 		wg.Add(1)
 		sem <- struct{}{}
-		go func(gi int, g *group) {
+		go func(name string, all []*Obligation) {
 			defer wg.Done()
 			defer func() { <-sem }()
-			r := solveQuery(g.text, s.dir, fmt.Sprintf("g%05d", gi), 3)
-			s.mu.Lock()
-			s.queries++
-			s.totalMs += r.ms
-			s.bySolver[r.solver]++
-			s.mu.Unlock()
-			if r.answer == "unsat" {
-				for _, o := range g.members {
-					o.Result, o.Solver = "unsat", r.solver+"(grouped)"
-					o.Ms = r.ms / int64(len(g.members))
+			var stack [][]*Obligation
+			for i := len(all); i > 0; i -= 48 {
+				j := i - 48
+				if j < 0 {
+					j = 0
 				}
+				stack = append(stack, all[j:i])
 			}
-		}(gi, g)
-	}
-	wg.Wait()
-	if dbg {
-		n := 0
-		for _, o := range obls {
-			if o.Result == "" {
-				n++
-			}
-		}
-		fmt.Fprintf(os.Stderr, "[govc] grouped stage done at %.1fs; %d instances left\n", time.Since(t0).Seconds(), n)
-	}
-	// 2. everything still undecided: one query per instance and conjunct
-	preps := make([]*prepared, len(obls))
-	for i, o := range obls {
-		preps[i] = &prepared{o: o} // rendered lazily (under renderMu) when the instance is actually tried
-	}
-	if dbg {
-		fmt.Fprintf(os.Stderr, "[govc] per-instance queries rendered at %.1fs\n", time.Since(t0).Seconds())
-	}
-	// instances of one obligation are tried in order; after the first failure the remaining
-	// siblings are not run (the obligation has failed anyway; one counterexample is what is reported)
-	byObl := map[string][]int{}
-	var order []string
-	for i, p := range preps {
-		n := p.o.Name
-		if _, ok := byObl[n]; !ok {
-			order = append(order, n)
-		}
-		byObl[n] = append(byObl[n], i)
-	}
-	for _, n := range order {
-		idxs := byObl[n]
-		wg.Add(1)
-		sem <- struct{}{}
-		go func(idxs []int) {
-			defer wg.Done()
-			defer func() { <-sem }()
 			failed := false
-			for _, i := range idxs {
-				p := preps[i]
-				if p.o.Result != "" {
-					if p.o.Result != "unsat" {
+			for len(stack) > 0 {
+				g := stack[len(stack)-1]
+				stack = stack[:len(stack)-1]
+				if failed {
+					for _, o := range g {
+						o.Result = "not-run"
+						o.Unsupp = "not run: another path instance of this obligation already failed"
+					}
+					continue
+				}
+				s.mu.Lock()
+				ctr++
+				id := ctr
+				s.mu.Unlock()
+				if len(g) == 1 {
+					s.renderMu.Lock()
+					rp := s.prepare(g[0])
+					s.renderMu.Unlock()
+					s.discharge(rp, int(id))
+					if g[0].Result != "unsat" {
 						failed = true
 					}
 					continue
 				}
-				if failed {
-					p.o.Result = "not-run"
-					p.o.Unsupp = "not run: another path instance of this obligation already failed"
+				s.renderMu.Lock()
+				text := s.groupText(name, g)
+				s.renderMu.Unlock()
+				r := solveQuery(text, s.dir, fmt.Sprintf("g%06d", id), 2)
+				s.mu.Lock()
+				s.queries++
+				s.totalMs += r.ms
+				s.bySolver[r.solver]++
+				s.mu.Unlock()
+				if r.answer == "unsat" {
+					for _, o := range g {
+						o.Result, o.Solver = "unsat", r.solver+"(grouped)"
+						o.Ms = r.ms / int64(len(g))
+					}
 					continue
 				}
-				s.renderMu.Lock()
-				rp := s.prepare(p.o)
-				s.renderMu.Unlock()
-				s.discharge(rp, i)
-				if p.o.Result != "unsat" {
-					failed = true
+				if len(g) <= 6 {
+					for i := len(g) - 1; i >= 0; i-- {
+						stack = append(stack, g[i:i+1])
+					}
+					continue
 				}
+				h := len(g) / 2
+				stack = append(stack, g[h:], g[:h])
 			}
-		}(idxs)
+		}(n, byName[n])
 	}
 	wg.Wait()
 }
